@@ -3,6 +3,27 @@ what counts as a non-trivial case, the theorems, and the classifier that turns a
 into a signature for known_findings.json."""
 
 PROPS = {
+    'C20': {
+        'engines': [('explore', 150, 3000, ['-shardsize', '50'])],
+        'rule': 'histories of 8-20 (8-30) ops on the REAL Explore with 1-3 worker goroutines: full discovery updates over 5 hashes x 3 jobs '
+                '(adds, removals, moves), Get, reloads dropping/restoring a job, completion of the oldest blocked probe of a hash with success '
+                '(counts) or failure, and "let the retry timers fire" (real sleeps; retry interval 400 ms via hook); the probe function is '
+                'replaced (hook) by one that blocks until the harness completes it, so the harness is the scheduler. Observed after every op: '
+                'the multiset of blocked probes, probes started per hash, and what Get returned. Every history ends by asking for all hashes. '
+                'non-trivial = >= 4 ops (all); distinct by input',
+        'theorems': 'C20_asked_once C20_accounted C20_one_in_flight_per_entry C20_quiet_after_success C20_estimate C20_failed_probe '
+                    'C20_one_in_flight_per_target_refuted',
+        'trusted_base': ['Model/Explore.v hand-written LTS of explore.go (atomic critical sections, eager workers, FIFO channel); tie = step-by-step '
+                         'differential histories on the real Explore with hooked probe function and retry interval'],
+        'assumptions': ['goroutine scheduling between lock release and channel send is abstracted to atomic steps; the 10000-slot channel never fills',
+                        'real probes through scrape.Scraper are covered by C12/C13/C14, not by this engine',
+                        'timing: ops take far less than the 400 ms retry interval (a slow machine could make a timer fire early: it would show as a disagreement, not as a silent pass)'],
+        'level_text': 'Proof: accounting invariant of the explorer LTS by induction over ALL op sequences (any number of workers, any interleaving of '
+                      'probes with updates and reloads): tracked live entries are in exactly one of queue/worker/timer, at most one probe per entry, '
+                      'silence after success, one-shot trigger, estimate theorems. "At most one probe per TARGET" is refuted in the model with a witness '
+                      '(known finding, replayed on the code). Partial: liveness proper (timers fire, workers run) is a fairness assumption.',
+        'level_note': 'Trusted: Coq kernel; hand-written LTS; scheduling abstraction; harness timing.',
+    },
     'C09': {
         'engines': [('store', 200, 4000, ['-shardsize', '100']), ('sidecar', 200, 4000, ['-propok', 'c10_case', '-shardsize', '100'])],
         'rule': 'store engine: pairs of distinct assignments (0-2 jobs incl. names with spaces/quotes, 0-3 targets each, 1/25 with 300-2000 targets; '
@@ -278,6 +299,27 @@ def classify(prop, engine, case):
         if inp.get('Resp') == 'body' and end == 'reset':
             return 'C13-eoflike-reset'
         return '%s-proxy-%s-%s' % (prop, inp.get('Resp'), end)
+    if engine == 'explore':
+        ops = inp.get('Ops') or []
+        obs = case.get('observed') or []
+        for i, ob in enumerate(obs):
+            infl = ob.get('InFlight') or []
+            dups = sorted(set(h for h in infl if infl.count(h) > 1))
+            if not dups:
+                continue
+            h = dups[0]
+            # walk back while h stays in flight: was it removed from the table (update without it / a reload) meanwhile?
+            k = i
+            removed = False
+            while k > 0 and h in (obs[k - 1].get('InFlight') or []):
+                op = ops[k]
+                if op.get('Kind') == 'apply':
+                    removed = True
+                if op.get('Kind') == 'update' and not any(h in (hs or []) for hs in (op.get('Jobs') or {}).values()):
+                    removed = True
+                k -= 1
+            return 'C20-dup-probe-readd-while-inflight' if removed else 'C20-dup-probe'
+        return 'C20-explore-other'
     if engine == 'store':
         return 'C09-store-%s' % (case.get('observed') or {}).get('Seen')
     if engine in ('sidecar', 'stats'):
